@@ -1,2 +1,2 @@
 SPECIFICATION StrSpec
-INVARIANTS SExplained STime SExpected SCurrentPresent
+INVARIANTS SExplained STime SExpected SCurrentPresent SDraw
